@@ -10,6 +10,7 @@ import EaselModel.Dist.IntegralThm
 import EaselModel.Dist.BisectThm
 import EaselModel.Dist.BisectTerm
 import EaselModel.Dist.BisectGen
+import EaselModel.Dist.BisectReal
 import EaselModel.Dist.Edge
 /-! # C10 — each distribution's pdf, cdf, survival, log and inverse functions agree
 
@@ -416,7 +417,7 @@ theorem bisection_inverses_generated {α : Type} [Add α] [Sub α] [Mul α] [Div
     [DecidableLT α] [DecidableLE α] [Num α] (fuel : Nat) (p mu l t : α) (h : ESL_HYPEREXP α) (mg : ESL_MIXGEV α) :
     esl_sxp_invcdf fuel p mu l t = Bisect.invcdfRight fuel (fun x => esl_sxp_cdf x mu l t) p mu ∧
     esl_gam_invcdf fuel p mu l t = Bisect.invcdfGam fuel (fun x => esl_gam_cdf x mu l t) p mu l t ∧
-    esl_hxp_invcdf fuel p h = Bisect.invcdfRight fuel (fun x => esl_hxp_cdf x h) p h.mu ∧
+    esl_hxp_invcdf fuel p h = Bisect.invcdfRightLim fuel (fun x => esl_hxp_cdf x h) p h.mu ∧
     esl_mixgev_invcdf fuel p mg = Bisect.invcdfMix fuel (fun x => esl_mixgev_cdf x mg) p (esl_vec_DMin mg.mu mg.K) :=
   ⟨BisectGen.sxp_invcdf fuel p mu l t, BisectGen.gam_invcdf fuel p mu l t, BisectGen.hxp_invcdf fuel p h,
     BisectGen.mixgev_invcdf fuel p mg⟩
@@ -437,7 +438,7 @@ theorem bisection_inverses_bracket {p μ l τ r : ℝ} (hp : 0 ≤ p) (fuel : Na
     fun hlt h => BisectThm.invcdfGam_brackets (cdf := fun x => esl_gam_cdf x μ l τ)
       (by show esl_gam_cdf μ μ l τ ≤ p; rw [Edge.gam_cdf_below (by simp)]; simpa using hp) hlt (BisectGen.gam_invcdf fuel p μ l τ ▸ h),
     fun hx h => BisectThm.invcdfRight_brackets (cdf := fun x => esl_hxp_cdf x hx)
-      (by show esl_hxp_cdf hx.mu hx ≤ p; rw [MixGen.hxp_cdf_at_mu]; exact hp) (BisectGen.hxp_invcdf fuel p hx ▸ h),
+      (by show esl_hxp_cdf hx.mu hx ≤ p; rw [MixGen.hxp_cdf_at_mu]; exact hp) (BisectReal.hxp_invcdf_real fuel p hx ▸ h),
     fun mg h => BisectThm.invcdfMix_brackets (cdf := fun x => esl_mixgev_cdf x mg) (BisectGen.mixgev_invcdf fuel p mg ▸ h)⟩
 
 /-- Accuracy on exit: the returned `r` is the midpoint of a final bracket no wider than the stop rule, so the point `q`
@@ -463,7 +464,7 @@ theorem bisection_inverses_accuracy {p μ l τ r q : ℝ} (hp : 0 ≤ p) (fuel :
       exact BisectTerm.final_accuracy hf hlo hhi,
     fun hx h hlo hhi => by
       obtain ⟨x2, hf⟩ := BisectTerm.invcdfRight_final (cdf := fun x => esl_hxp_cdf x hx)
-        (by show esl_hxp_cdf hx.mu hx ≤ p; rw [MixGen.hxp_cdf_at_mu]; exact hp) (BisectGen.hxp_invcdf fuel p hx ▸ h)
+        (by show esl_hxp_cdf hx.mu hx ≤ p; rw [MixGen.hxp_cdf_at_mu]; exact hp) (BisectReal.hxp_invcdf_real fuel p hx ▸ h)
       exact BisectTerm.final_accuracy hf hlo hhi,
     fun mg h hlo hhi => by
       obtain ⟨x1, x2, hf⟩ := BisectTerm.invcdfMix_final (cdf := fun x => esl_mixgev_cdf x mg) (BisectGen.mixgev_invcdf fuel p mg ▸ h)
@@ -489,7 +490,7 @@ theorem bisection_inverses_terminate {p μ l τ δ X : ℝ} {N1 N2 fuel : Nat} (
       (esl_mixgev_invcdf fuel p mg).isSome) :=
   ⟨fun hlow hX h1 h2 => BisectGen.sxp_invcdf fuel p μ l τ ▸ BisectTerm.invcdfRight_terminates hδ hlow hX h1 h2 hf1 hf2,
     fun hlt hlow hX h1 h2 => BisectGen.gam_invcdf fuel p μ l τ ▸ BisectTerm.invcdfGam_terminates hδ hlt hlow hX h1 h2 hf1 hf2,
-    fun hx hlow hX h1 h2 => BisectGen.hxp_invcdf fuel p hx ▸ BisectTerm.invcdfRight_terminates hδ hlow hX h1 h2 hf1 hf2,
+    fun hx hlow hX h1 h2 => BisectReal.hxp_invcdf_real fuel p hx ▸ BisectTerm.invcdfRight_terminates hδ hlow hX h1 h2 hf1 hf2,
     fun mg XL N0 hf0 hL hR h0 h1 h2 => BisectGen.mixgev_invcdf fuel p mg ▸ BisectTerm.invcdfMix_terminates hL hR h0 h1 h2 hf0 hf1 hf2⟩
 
 /-- Known finding `C10:mixture_invcdf:p-above-cdf-max` (known_findings.d/C10.json), the counter-example over `ℝ`: when `p`
@@ -498,7 +499,7 @@ theorem bisection_inverses_terminate {p μ l τ δ X : ℝ} {N1 N2 fuel : Nat} (
     what fails.  (The C function then never returns: reproduced, fix proposed.) -/
 theorem bisection_inverses_hang_above_sup {p : ℝ} (h : ESL_HYPEREXP ℝ) (hsup : ∀ x, esl_hxp_cdf x h < p) (fuel : Nat) :
     esl_hxp_invcdf fuel p h = none :=
-  BisectGen.hxp_invcdf fuel p h ▸ BisectTerm.invcdfRight_never (cdf := fun x => esl_hxp_cdf x h) hsup fuel
+  BisectReal.hxp_invcdf_real fuel p h ▸ BisectTerm.invcdfRight_never (cdf := fun x => esl_hxp_cdf x h) hsup fuel
 
 /-- the hypothesis is satisfiable: a one-component "mixture" with coefficient `0.5` never reaches `p = 1` -/
 example (fuel : Nat) : esl_hxp_invcdf fuel 1 ({ mu := 0, K := 1, q := [0.5], lambda := [1], wrk := [0] } : ESL_HYPEREXP ℝ) = none := by
